@@ -103,7 +103,28 @@ pub(crate) fn c08_case(rep: &mut Report, seed: u64, idx: u64, tier: &str) {
         if !consume_async && idx % 499 == 3 && rep.samples.len() < 4 {
             rep.sample(J::obj().with("case", idx).with("what", label.as_str()).with("head_hex", hex_short(&head, 120)));
         }
+        // the 8 header octets are fixed by RFC 8010 3.1.1: judged against the message's own header values, not against to_bytes()
+        let hdr_of = |version: u16, code: u16, id: u32| -> Vec<u8> {
+            let mut h = version.to_be_bytes().to_vec();
+            h.extend_from_slice(&code.to_be_bytes());
+            h.extend_from_slice(&id.to_be_bytes());
+            h
+        };
+        if head.len() < 8 || head[..8] != hdr_of(m.version, m.code, m.id)[..] {
+            rep.violation("C08:encoded-header", format!("{label}: to_bytes() starts with {} but the header is version {:#06x} code {:#06x} request-id {}", hex_short(&head[..head.len().min(8)], 16), m.version, m.code, m.id), replay.clone());
+            return;
+        }
         let mut expected = head.clone();
+        // every 4th case: the header is changed through header_mut() AFTER the message has been encoded once; the stream
+        // must carry the header as it is now (attribute section unchanged: same instance, same maps)
+        if idx % 4 == 1 {
+            let (nv, nc, ni) = (if m.version == 0x0200 { 0x0101 } else { 0x0200 }, m.code ^ 0x0001, m.id.wrapping_add(0x0101_0101));
+            r.header_mut().version = ipp::model::IppVersion(nv);
+            r.header_mut().operation_or_status = nc;
+            r.header_mut().request_id = ni;
+            expected[..8].copy_from_slice(&hdr_of(nv, nc, ni));
+            rep.count("header_changed_after_first_encoding", 1);
+        }
         expected.extend_from_slice(&payload);
         let got: Result<Result<(Vec<u8>, u32), String>, String> = if consume_async {
             let sh = [shared.clone()];
@@ -677,7 +698,12 @@ pub fn run_c16(_args: &Args, tier: &str, seed: u64) -> Report {
 // =================================================================== C17
 
 const BLOCKING: [&str; 10] = ["media-jam", "toner-empty", "spool-area-full", "cover-open", "door-open", "input-tray-missing", "output-tray-missing", "marker-supply-empty", "paused", "shutdown"];
-const INFORMATIONAL: [&str; 8] = ["none", "media-low", "toner-low", "media-low-warning", "marker-supply-low-report", "moving-to-paused", "connecting-to-device", "timed-out-report"];
+// registered RFC 8011 5.4.12 keywords that announce, rather than report, a problem (the registered keywords that do report one
+// without being on the property's list - media-empty, output-area-full, ... - are left out: the property does not classify them)
+const INFORMATIONAL: [&str; 13] = [
+    "none", "media-low", "toner-low", "media-low-warning", "marker-supply-low-report", "moving-to-paused", "connecting-to-device", "timed-out-report",
+    "marker-supply-low", "output-area-almost-full", "marker-waste-almost-full", "opc-near-eol", "developer-low",
+];
 
 #[derive(Clone, Debug, PartialEq)]
 enum Want {
